@@ -1,4 +1,5 @@
 import Resgate.Proofs.GwPure
+import Resgate.Proofs.Mailbox
 import Resgate.Proofs.QIdx
 import Resgate.Gw.Reset
 
@@ -79,5 +80,41 @@ theorem query_event_plan (e : Entry) :
     simp only [Prod.mk.injEq] at he
     obtain ⟨rfl, rfl, rfl⟩ := he
     exact ⟨hm, by simp⟩
+
+/-- **Atomic query-event handling over whole runs.** After a query event locked the mailbox for `n`
+    query requests, and for every interleaving of enqueued items (events, responses, subscribers),
+    arriving answers and worker steps in which fewer than `n` answers have arrived: the lock is
+    still held — with exactly the unanswered requests outstanding — and not one normal item has
+    been run. (`Entry.lockFor`, `Entry.push`, `Entry.pushUnlock` and `mbNext` are the functions the
+    gateway model itself runs.) -/
+theorem locked_until_every_answer (n : Nat) (m : Gw.Mailbox.MB) (ops : List Gw.Mailbox.Op)
+    (hop : Gw.Mailbox.noLock ops) (hr : Gw.Mailbox.arrivals ops < n) :
+    let m' := ops.foldl Gw.Mailbox.step { m with e := m.e.lockFor n }
+    Gw.Mailbox.Held m' (n - Gw.Mailbox.arrivals ops) ∧ m'.e.locks.isSome = true ∧ m'.ran = m.ran := by
+  obtain ⟨h, e⟩ := Gw.Mailbox.run_held ops { m with e := m.e.lockFor n } n hop hr
+    (Gw.Mailbox.held_lockFor m n)
+  refine ⟨h, ?_, e⟩
+  obtain ⟨cap, arr, hl, _⟩ := h
+  simp [hl]
+
+/-- … after which processing always resumes: when every answer has arrived (as many wait as slots
+    are left), one worker step per answer ends the lock, runs no normal item and leaves the queue
+    as it is — the next worker steps run the waiting items in order (`resumes_fifo`). -/
+theorem all_answers_end_the_lock (arr : List (Nat × Gw.LItem)) (m : Gw.Mailbox.MB) (hne : arr ≠ [])
+    (hl : m.e.locks = some (arr.length, arr)) :
+    ((List.replicate arr.length Gw.Mailbox.Op.pop).foldl Gw.Mailbox.step m).e.locks = none ∧
+    ((List.replicate arr.length Gw.Mailbox.Op.pop).foldl Gw.Mailbox.step m).ran = m.ran ∧
+    ((List.replicate arr.length Gw.Mailbox.Op.pop).foldl Gw.Mailbox.step m).e.queue = m.e.queue :=
+  Gw.Mailbox.drain_lock arr m hne hl
+
+-- non-vacuity: two requests out, one answered and processed, an event enqueued meanwhile
+example : Gw.Mailbox.noLock [.arrive 1 .noop, .enq 2 (.queryEvent "s"), .pop, .pop] ∧
+    Gw.Mailbox.arrivals [.arrive 1 .noop, .enq 2 (.queryEvent "s"), .pop, .pop] < 2 := by
+  simp [Gw.Mailbox.noLock, Gw.Mailbox.arrivals]
+
+-- … and the premise of `all_answers_end_the_lock` is what `lockFor 1` + one arriving answer gives
+example : ((({ name := "q" } : Gw.Entry).lockFor 1).pushUnlock 5 .noop).locks
+    = some ([(5, Gw.LItem.noop)].length, [(5, Gw.LItem.noop)]) := by
+  simp [Gw.Entry.lockFor, Gw.Entry.pushUnlock]
 
 end Resgate.C13
